@@ -1,3 +1,4 @@
+#![allow(unreachable_pub, dead_code, missing_docs, unused_imports, unused_variables, unused_mut, static_mut_refs, clippy::all)]
 // Kani harnesses for iroh-dns/src/dns.rs (C34 jitter kernel).
 use super::*;
 include!("/verif/kani/common.rs");
